@@ -47,7 +47,7 @@ type info struct {
 // source as "<kind>" or "<kind>:<signature>".
 func (in info) cls(kind, sig string) string {
 	for _, sh := range in.shapes {
-		if vk.R.KnownClass("shape/"+sh) != nil {
+		if vk.R.KnownClass("shape/"+sh) != nil && os.Getenv("FMT_NOKNOWN") == "" {
 			return "shape/" + sh
 		}
 	}
